@@ -50,7 +50,8 @@
 //! `gen_pred(rng, rows, width, opts)` draws a predicate whose literals come from the cells of `rows` (± 1) and — by
 //! rejection sampling with `eval3` — is TRUE on 10–60 % of `rows` when such a predicate is found within the retry budget
 //! (the last candidate is returned otherwise).  `GenOpts::max_depth` bounds the nesting; `GenOpts::null_in_list` allows
-//! NULL inside IN lists; `GenOpts::avoid_cols` lists columns not to mention.
+//! NULL inside IN lists; `GenOpts::avoid_cols` lists columns not to mention.  Predicates in which one column occurs in two
+//! IN-like atoms are never returned (`has_mergeable_inlists`: DataFusion's IN-list simplifier is not NULL-safe under NOT).
 
 use hcommon::Rng;
 
@@ -333,6 +334,29 @@ pub fn negates_col(e: &Expr, c: usize) -> bool {
     }
 }
 
+fn inlike_cols(e: &Expr, out: &mut Vec<usize>) {
+    match e {
+        Expr::In(c, _) | Expr::Cmp(Cmp::Eq, c, Operand::Lit(_)) | Expr::Cmp(Cmp::Ne, c, Operand::Lit(_)) => out.push(*c),
+        Expr::Not(a) => inlike_cols(a, out),
+        Expr::And(a, b) | Expr::Or(a, b) => {
+            inlike_cols(a, out);
+            inlike_cols(b, out);
+        }
+        _ => {}
+    }
+}
+
+/// does some column occur in two IN-like atoms (`IN (…)`, `= literal`, `!= literal`)?  DataFusion's simplifier merges such
+/// atoms (`x = 1 OR x = 2` becomes `x IN (1, 2)`; `x IN (A) AND x IN (B)` becomes `x IN (A ∩ B)`, and FALSE when the
+/// intersection is empty) without regard to NULLs: `NOT (c0 IN (-1,5,0) AND c0 IN (6,-2))` is TRUE for a NULL c0 after
+/// simplification, NULL in SQL (C12 finding `datafusion_inlist_intersection_null`).  `gen_pred` never returns this shape.
+pub fn has_mergeable_inlists(e: &Expr) -> bool {
+    let mut cols = vec![];
+    inlike_cols(e, &mut cols);
+    cols.sort();
+    cols.windows(2).any(|w| w[0] == w[1])
+}
+
 /// add `k` to every column index (used to address the second half of a combined row)
 pub fn shift_cols(e: &Expr, f: &dyn Fn(usize) -> usize) -> Expr {
     match e {
@@ -442,6 +466,9 @@ pub fn gen_pred(rng: &mut Rng, rows: &[Vec<QCell>], width: usize, opts: &GenOpts
     for _ in 0..24 {
         let depth = rng.usize(opts.max_depth + 1);
         let e = gen_expr(rng, rows, &cols, depth, opts);
+        if has_mergeable_inlists(&e) {
+            continue;
+        }
         let s = selectivity_pct(&e, rows);
         if rows.is_empty() || (opts.lo_pct <= s && s <= opts.hi_pct) {
             return e;
